@@ -484,7 +484,7 @@ def _nearmiss_case(draw):
   sel = draw(st.sampled_from(['fa', 'sub.fb', 'm1.sub.fb', 'm1.K']))
   name = scope + '/' + sel
   why = draw(st.sampled_from(['ws', 'ws', 'ws', 'empty', 'misplaced']))
-  where = draw(st.sampled_from(['key', 'block', 'ref', 'macro', 'macrodef', 'import']))
+  where = draw(st.sampled_from(['key', 'block', 'ref', 'macro', 'macrodef', 'import', 'import']))
   if where == 'import':
     base = draw(st.sampled_from(['a.b.c', 'os.path']))
     if why == 'ws':
